@@ -41,7 +41,7 @@ func runC15(c *Ctx) {
 	c.Rule("C15-R2", "error classification tables", 16)
 	c.Rule("C15-R3", "severity of API failures in problemFromError; strictness flows from Required", 6)
 	c.Rule("C15-R4", "error discipline at every API call site in internal/checks", 60)
-	c.Rule("C15-R5", "cache protocol: only successes are stored, key names the upstream (shared with C14-R3)", 20)
+	c.Rule("C15-R5", "cache protocol: only successes are stored, key names the upstream (shared with C14-R3)", 9)
 	defer c14CacheR(c, "C15-R5")
 	defer c15NoStickyOutage(c)
 
